@@ -4,6 +4,7 @@ import os
 import random
 
 import common
+import isotrees
 import srv
 
 
@@ -18,6 +19,10 @@ def shared_nodes(rng):
         off = 24 + 16 * ss + (8 if tag == "PSX" else 0)
         nodes.append(srv.fnode(["pub", "cd%d.bin" % ss], 2 * 1024 * 1024 + 4096 * i, cid="cd%d" % ss, mtime=t + 20 + i, marks=[{"off": srv.pos(off), "tag": tag}]))
     nodes.append(srv.fnode(["pub", "nocd.bin"], 2 * 1024 * 1024 + 77, cid="nocd", mtime=t + 30))
+    # a game directory for ***PS3*** images: every open parses PARAM.SFO (several keys around TITLE_ID)
+    nodes += [srv.dnode(["pub", "game"], t + 40), srv.dnode(["pub", "game", "PS3_GAME"], t + 41),
+              isotrees.param_sfo(["pub", "game", "PS3_GAME", "PARAM.SFO"], "BLUS12345", t + 42, 4, 5),
+              srv.fnode(["pub", "game", "PS3_GAME", "ICON0.PNG"], 3000, cid="game_icon", mtime=t + 43)]
     return nodes
 
 
@@ -35,6 +40,12 @@ def session(rng, cid, n, aw):
     if cid % 4 == 0:
         return [{"op": "BARRIER"}, {"op": "OPEN_FILE", "path": "/pub", "delayMs": rng.randrange(0, 2500)},
                 {"op": "READ_FILE_CRITICAL", "limit": 65536, "off": 0}, {"op": "BARRIER"}]
+    # others walk away in the middle of the reply to an ordinary read (the unsent rest must not reach anybody else)
+    if cid % 4 == 2 and rng.random() < 0.7:
+        return [{"op": "BARRIER"}, {"op": "OPEN_FILE", "path": "/pub/big.bin", "delayMs": rng.randrange(0, 2500)},
+                {"op": "READ_FILE", "limit": 4096, "off": 1000},
+                {"op": "READ_FILE", "limit": rng.choice([4096, 70000, 140000]), "off": rng.randrange(0, 100000), "abortAfter": rng.choice([1, 4, 5, 100, 3000])},
+                {"op": "BARRIER"}]
     reqs.append({"op": "BARRIER"})
     for _ in range(n):
         r = rng.random()
@@ -47,10 +58,13 @@ def session(rng, cid, n, aw):
             cur = None
             continue
         if r < 0.40 or cur is None:
-            f = rng.choice(["big", "mid", "small", "viso"])
+            f = rng.choice(["big", "mid", "small", "viso", "ps3"])
             if f == "viso":
                 reqs.append({"op": "OPEN_FILE", "path": "/***DVD***/pub/img"})
                 cur = 131072 + 65536
+            elif f == "ps3":
+                reqs.append({"op": "OPEN_FILE", "path": "/***PS3***/pub/game"})
+                cur = 65536 + 4096
             else:
                 reqs.append({"op": "OPEN_FILE", "path": "/pub/%s.bin" % f})
                 cur = sizes[f]
@@ -109,7 +123,7 @@ def run(tier, seed, replay=None):
                 aw = rep_i % 2 == 0
                 nodes = shared_nodes(rng) + [srv.dnode(["priv%d" % (c + 1)], 1470001000 + c) for c in range(nconn)]
                 conns = [{"id": c + 1, "reqs": session(rng, c + 1, 25 if not full else 40, aw)} for c in range(nconn)]
-                worlds.append({"name": "conc-%d-%d" % (nconn, rep_i), "aw": aw, "nodes": nodes, "views": [{"vk": "dvd", "p": ["pub", "img"]}],
+                worlds.append({"name": "conc-%d-%d" % (nconn, rep_i), "aw": aw, "nodes": nodes, "views": [{"vk": "dvd", "p": ["pub", "img"]}, {"vk": "ps3", "p": ["pub", "game"]}],
                                "conns": conns, "schedule": "conc", "quiesce": True, "bufferSize": rng.choice([0, 0, 4096, 100000]),
                                "writeDelayUs": rng.choice([0, 150, 400])})
         # GOMAXPROCS 1, 4, 16: the interleavings differ
@@ -132,7 +146,8 @@ def run(tier, seed, replay=None):
             rworlds = [worlds[1], short]
         srv.run_and_validate(rctx, rworlds, rep)
         os.environ.pop("GOMAXPROCS", None)
-        rep.cov["rule"] = ("2..64 concurrent connections (goroutine each), seeded sessions over shared read-only files, the same generated image and "
+        rep.cov["rule"] = ("2..64 concurrent connections (goroutine each), seeded sessions over shared read-only files, the same generated images (plain and PS3 "
+                           "mode), connections that die inside a transfer or reset in the middle of a reply, and "
                            "private writable subtrees, large transfers spanning many pooled buffers, buffer sizes {64 KiB, 4 KiB, 100000}; every "
                            "connection's event stream validated separately against the single-connection specification; the same on a -race build; "
                            "distinct_nontrivial = worlds whose every connection trace TLC accepted")
